@@ -270,13 +270,23 @@ Definition available_desc (s : qstate) : N :=
   if q_indirect s then (if q_num_used s =? q_size s then 0 else q_size s)
   else q_size s - q_num_used s.
 
+(* VirtIO 1.2, 2.7.10 vring_need_event(event_idx, new_idx, old_idx) on 16-bit words *)
+Definition need_event (ev new old : N) : bool :=
+  sub16 (sub16 new ev) 1 <? sub16 new old.
+
 (* should_notify as written in /repo (see Proofs/NotifyProofs.v for what it must imply).
    u_avail_event, u_flags: device-written *)
 Definition should_notify (s : qstate) (u_avail_event u_flags : N) : bool :=
   if q_event_idx s then
-    add16 (w16 u_avail_event) 1 <=? q_avail_idx s
+    (* avail_idx.wrapping_sub(avail_event.wrapping_add(1)) < 0x8000 *)
+    sub16 (q_avail_idx s) (add16 (w16 u_avail_event) 1) <? 32768
   else N.land u_flags 1 =? 0.
 
+
+(* the comparison as it stood before the repair (fix: commit in /repo), kept for the refutation
+   theorem C05_plain_comparison_refuted *)
+Definition should_notify_plain (avail_idx u_avail_event : N) : bool :=
+  add16 (w16 u_avail_event) 1 <=? avail_idx.
 
 Definition set_dev_notify (s : qstate) (enable : bool) : qstate * list qev :=
   let v := if enable then 0 else 1 in
